@@ -74,7 +74,12 @@ AtomTable == <<
   [key |-> GenKey,  reqs |-> <<R(GenKey, "Gte", <<"3">>, 3), R(GenKey, "Lte", <<"3">>, 3)>>],                 \* 13
   [key |-> ArchKey, reqs |-> <<R(ArchKey, "In", <<"amd64">>, -1)>>],                                          \* 14
   [key |-> TypeKey, reqs |-> <<R(TypeKey, "In", <<"small", "large">>, -1)>>],                                 \* 15
-  [key |-> ZoneKey, reqs |-> <<R(ZoneKey, "Exists", <<>>, -1)>>]                                              \* 16
+  [key |-> ZoneKey, reqs |-> <<R(ZoneKey, "Exists", <<>>, -1)>>],                                             \* 16
+  \* requirements written with the deprecated alias spelling of a well-known key (atom.key = the label they denote)
+  [key |-> ArchKey, reqs |-> <<R("beta.kubernetes.io/arch", "In", <<"amd64">>, -1)>>],                        \* 17
+  [key |-> ZoneKey, reqs |-> <<R("failure-domain.beta.kubernetes.io/zone", "In", <<"zone-a">>, -1)>>],        \* 18
+  [key |-> ZoneKey, reqs |-> <<R("failure-domain.beta.kubernetes.io/zone", "NotIn", <<"zone-a">>, -1)>>],     \* 19
+  [key |-> TypeKey, reqs |-> <<R("beta.kubernetes.io/instance-type", "Exists", <<>>, -1)>>]                   \* 20
 >>
 Range(s) == {s[i] : i \in DOMAIN s}
 ReqsOf(A) == UNION {Range(AtomTable[a].reqs) : a \in A}
@@ -107,7 +112,7 @@ Options == {[type |-> t, zone |-> z, ct |-> x] : t \in Types, z \in Zones, x \in
 OptLabels(o) == [k \in {TypeKey, ZoneKey, CTKey, ArchKey} |->
                    IF k = TypeKey THEN o.type ELSE IF k = ZoneKey THEN o.zone ELSE IF k = CTKey THEN o.ct ELSE "amd64"]
 OptName(o) == o.type \o "/" \o o.zone \o "/" \o o.ct
-WellKnownReqs(A) == {r \in ReqsOf(A) : r.key \notin CustomKeys}
+WellKnownReqs(A) == {r \in ReqsOf(A) : Norm(r.key) \notin CustomKeys}
 Permitted(A, o) == o.type \in types /\ SatSet(OptLabels(o), IntsOf(OptLabels(o)), WellKnownReqs(A))
 Launchable(A) == \E o \in Options : Permitted(A, o)
 
@@ -131,10 +136,13 @@ NoClaim == [st |-> "none", labels |-> Empty, hashAnn |-> NoHash, verAnn |-> "-",
 \* the claim as the guards of DriftGuards see it (logged shape)
 PoolRec == [exists |-> TRUE, hashAnn |-> pool.hashAnn, verAnn |-> pool.verAnn, specHash |-> HashOf(pool, Cur)]
 StaticM(x) == /\ pool.hashAnn # NoHash /\ x.hashAnn # NoHash /\ pool.verAnn # "-" /\ x.verAnn # "-"
-              /\ (Wk = "crossVersion" \/ pool.verAnn = x.verAnn)
+              /\ (Wk = "crossVersion" \/ (IF Wk = "versionConst" THEN x.verAnn = Cur ELSE pool.verAnn = x.verAnn))
               /\ pool.hashAnn # x.hashAnn
 ReqDriftM(x) == IF Wk = "intersects"
-                THEN ~(\A r \in ReqsOf(pool.reqs) : ~Has(x.labels, r.key) \/ Admits(r, x.labels, IntsOf(x.labels)))
+                THEN ~(\A r \in ReqsOf(pool.reqs) : ~Has(x.labels, Norm(r.key)) \/ Admits(r, x.labels, IntsOf(x.labels)))
+                ELSE IF Wk = "rawKeyFilter"   \* labels pre-filtered by the RAW requirement keys
+                THEN LET L == [k \in DOMAIN x.labels \cap {r.key : r \in ReqsOf(pool.reqs)} |-> x.labels[k]]
+                     IN ~SatSet(L, IntsOf(L), ReqsOf(pool.reqs))
                 ELSE ~SatSet(x.labels, IntsOf(x.labels), ReqsOf(pool.reqs))
 TypeUnknownM(x) == ~Has(x.labels, TypeKey) \/ x.labels[TypeKey] \notin types
 \* oracle side (never mutated)
